@@ -25,5 +25,21 @@ PROPS = {
         "explanation": "theorems C17_root_ancestor / C17_root_greatest / C17_root_absolute / C17_root_exists for all directory lists; correspondence: hook commonPrefix vs model on every small directory set, real LoadSources on synthesised on-disk layouts incl. error cases",
         "technique": "Lean 4 theorems (prefix order on component lists) + exhaustive/differential correspondence through a build-tag hook and real LoadSources runs",
     },
+    "C20": {
+        "level": "proof",
+        "lean_modules": ["Gomacro.Props.C20"],
+        "prop_modules": ["Gomacro.Props.C20"],
+        "runners": ["C20"],
+        "extract": True,
+        "race": True,
+        "trusted_base": [KERNEL,
+            "hand-written Lean protocol model Gomacro/Sched.lean of generator.Formatters (mutex, four cells, probe/run as environment parameters); sync.Mutex semantics (mutual exclusion, happens-before between Unlock and Lock) assumed",
+            "go/ast fact extractor (harness/cmd/vh/extract.go) regenerating lean/Gomacro/Facts/Generated.lean from generator/*.go; theorem C20_facts_ok re-checks the lock discipline the model assumes",
+            "races on memory other than the four cells and the mutex are outside the model: left to the Go race detector in the correspondence runs (support, not proof)",
+            "os/exec, the external tools themselves and the stand-in shell scripts"],
+        "assumptions": ["each probe/run command terminates", "exec.Command(...).Run() returns a non-nil error iff the command cannot be started or exits non-zero"],
+        "explanation": "theorems C20_probe_once / C20_locked_access / C20_no_concurrent_access / C20_run_per_request / C20_absent_ok_untouched / C20_failing_reported / C20_no_deadlock by invariant + induction over every schedule, any number of requests and every tool configuration; C20_facts_ok over facts regenerated from the source; correspondence: real FormatFile from many goroutines in a -race build with recording stand-in tools vs oracle and vs the model",
+        "technique": "Lean 4 invariant proof over all interleavings of a protocol model + regenerated lock-discipline facts + -race correspondence runs",
+    },
 }
 NOT_APPLICABLE = {}
